@@ -131,7 +131,7 @@ func C18(c *vh.Ctx) {
 		}
 		return
 	}
-	c.Rule("states with 0-2 permanent ('k!', 'cfg!') and 0-2 ordinary bindings x action and guard programs (delete / overwrite / clear / fresh object / same object / empty / null / throw / non-object / native nil execution / partial execution / deep mutation; native and ECMAScript) x branch pattern (none; binding an ordinary variable; binding a permanent variable '?dev!') x node shape (action node with guarded branch and a fallback; message node with guarded branch; action node whose only branch is guarded, so that it may follow no branch; action node without branches) - Go actions also editing the map they were given and handing back another x the guarded branch's target (a node; the branch-target variable '@to!', a permanent binding that names a node) x error routing; oracle: every permanent binding present before is present and equal in any resulting state, no crash, and the step is one the reference allows. non-trivial = state has a permanent binding.")
+	c.Rule("states with 0-2 permanent ('k!', 'cfg!') and 0-2 ordinary bindings x action and guard programs (delete / overwrite / clear / fresh object / same object / empty / null / throw / non-object / native nil execution / partial execution / deep mutation; native and ECMAScript) x branch pattern (none; binding an ordinary variable; binding a permanent variable '?dev!'; an empty map, which binds nothing) x node shape (action node with guarded branch and a fallback; message node with guarded branch; action node whose only branch is guarded, so that it may follow no branch; action node without branches) - Go actions also editing the map they were given and handing back another x the guarded branch's target (a node; the branch-target variable '@to!', a permanent binding that names a node) x error routing; oracle: every permanent binding present before is present and equal in any resulting state, no crash, and the step is one the reference allows. non-trivial = state has a permanent binding.")
 	var idx uint64
 	for _, native := range []bool{true, false} {
 		ps := c18Progs(native)
@@ -144,13 +144,13 @@ func C18(c *vh.Ctx) {
 				if c.Expired() {
 					return
 				}
-				for _, pat := range []interface{}{nil, M{"a": "?x"}, M{"a": "?dev!"}} {
+				for _, pat := range []interface{}{nil, M{"a": "?x"}, M{"a": "?dev!"}, M{}} {
 					for shape := 0; shape < 8; shape++ {
 						// shapes 4-7: the guarded branch's target is a branch-target variable that names a permanent binding
 						n1 := "n1"
 						if shape >= 4 {
 							n1 = "@to!"
-							if pat != nil && rstep.Canon(pat) != rstep.Canon(M{"a": "?x"}) {
+							if pat != nil && rstep.Canon(pat) != rstep.Canon(M{"a": "?x"}) && rstep.Canon(pat) != rstep.Canon(M{}) {
 								continue
 							}
 						}
